@@ -6,6 +6,7 @@
 From Coq Require Import List NArith Bool.
 From Feox Require Import Model.Device Proofs.CrashProofs.
 From Feox Require Gen.Constants Model.Bytes Model.Codec Model.FreeSpace Model.Recovery Proofs.ScanAcceptsProofs Proofs.ScanQuiescentProofs Proofs.ScanGenerationsProofs.
+From Feox Require Model.MetaJournal Proofs.FreeSpaceProofs Proofs.MetaJournalProofs Proofs.ReplayRollbackProofs.
 Import ListNotations.
 Local Open Scope N_scope.
 
@@ -178,3 +179,82 @@ Example newest_generation_wins_either_order :
   run [ScanQuiescentProofs.IRec new; ScanQuiescentProofs.IRec other; ScanQuiescentProofs.IRec old]
     = ([([107; 49], 30, 16); ([107; 50], 5, 17)], [(18, 1)], 2).
 Proof. vm_compute. split; reflexivity. Qed.
+
+(* ---- at the byte level, a crash inside a write batch: a file at rest whose journal is ACTIVE and
+   names the extent of one record (the batch that was in flight).  The open replays the journal --
+   the extent is overwritten with a completed run of retirement markers, a CLEAR record follows --
+   and then reads the file like any file at rest: every other record is reported, the journaled
+   one is gone (all or nothing), its blocks are free, and the file the open leaves behind is itself
+   a file at rest with the same length ---- *)
+
+Theorem crashed_batch_is_rolled_back :
+  forall c img m jgen jslot its1 r its2,
+  Recovery.c_ro c = false -> Recovery.c_now c = None ->
+  (17 <= length img)%nat ->
+  let total := N.of_nat (length img) in
+  let mb := if MetaJournal.select_meta (Recovery.nth_block img 0) (Recovery.nth_block img (N.to_nat Constants.FEOX_METADATA_BACKUP_BLOCK))
+            then Recovery.nth_block img (N.to_nat Constants.FEOX_METADATA_BACKUP_BLOCK) else Recovery.nth_block img 0 in
+  let v := MetaJournal.m_version m in
+  let s := Constants.FEOX_DATA_START_BLOCK + ScanQuiescentProofs.isum v its1 in
+  let n := ScanAcceptsProofs.need_of v r in
+  Bytes.list_eqb (firstn 8 mb) MetaJournal.SIGNATURE = true -> MetaJournal.decode_meta mb = Some m -> Codec.has_token v = true ->
+  MetaJournal.decode_journal (Recovery.slot_bytes img 0) (Recovery.slot_bytes img 1) total = Some (jgen, jslot, [(s, n)]) ->
+  jgen < Recovery.U64MAX ->
+  total * Constants.FEOX_BLOCK_SIZE < FreeSpace.U64 ->
+  Forall (ScanQuiescentProofs.item_ok v) (its1 ++ ScanQuiescentProofs.IRec r :: its2) -> ScanAcceptsProofs.distinct_keys (ScanQuiescentProofs.recs_of (its1 ++ its2)) ->
+  skipn (N.to_nat Constants.FEOX_DATA_START_BLOCK) img = ScanQuiescentProofs.ilayout v Constants.FEOX_DATA_START_BLOCK (its1 ++ ScanQuiescentProofs.IRec r :: its2) ->
+  exists o img',
+    Recovery.open_image c img = (Recovery.Ok o, img') /\
+    length img' = length img /\
+    skipn (N.to_nat Constants.FEOX_DATA_START_BLOCK) img' = ScanQuiescentProofs.ilayout v Constants.FEOX_DATA_START_BLOCK (its1 ++ ScanQuiescentProofs.IMark n :: its2) /\
+    (forall r', In r' (ScanQuiescentProofs.recs_of (its1 ++ its2)) -> exists s', Recovery.idx_find (Codec.r_key r') (Recovery.o_idx o) = Some (ScanQuiescentProofs.entry_of v r' s')) /\
+    Recovery.o_count o = N.of_nat (length (ScanQuiescentProofs.recs_of (its1 ++ its2))) /\
+    (forall b, Constants.FEOX_DATA_START_BLOCK <= b < total ->
+               (FreeSpaceProofs.free (Recovery.o_fs o) b <-> ~ ScanQuiescentProofs.covered v Constants.FEOX_DATA_START_BLOCK (its1 ++ ScanQuiescentProofs.IMark n :: its2) b)).
+Proof. exact ReplayRollbackProofs.crashed_batch_is_rolled_back. Qed.
+Check crashed_batch_is_rolled_back :
+  forall c img m jgen jslot its1 r its2,
+  Recovery.c_ro c = false -> Recovery.c_now c = None ->
+  (17 <= length img)%nat ->
+  let total := N.of_nat (length img) in
+  let mb := if MetaJournal.select_meta (Recovery.nth_block img 0) (Recovery.nth_block img (N.to_nat Constants.FEOX_METADATA_BACKUP_BLOCK))
+            then Recovery.nth_block img (N.to_nat Constants.FEOX_METADATA_BACKUP_BLOCK) else Recovery.nth_block img 0 in
+  let v := MetaJournal.m_version m in
+  let s := Constants.FEOX_DATA_START_BLOCK + ScanQuiescentProofs.isum v its1 in
+  let n := ScanAcceptsProofs.need_of v r in
+  Bytes.list_eqb (firstn 8 mb) MetaJournal.SIGNATURE = true -> MetaJournal.decode_meta mb = Some m -> Codec.has_token v = true ->
+  MetaJournal.decode_journal (Recovery.slot_bytes img 0) (Recovery.slot_bytes img 1) total = Some (jgen, jslot, [(s, n)]) ->
+  jgen < Recovery.U64MAX ->
+  total * Constants.FEOX_BLOCK_SIZE < FreeSpace.U64 ->
+  Forall (ScanQuiescentProofs.item_ok v) (its1 ++ ScanQuiescentProofs.IRec r :: its2) -> ScanAcceptsProofs.distinct_keys (ScanQuiescentProofs.recs_of (its1 ++ its2)) ->
+  skipn (N.to_nat Constants.FEOX_DATA_START_BLOCK) img = ScanQuiescentProofs.ilayout v Constants.FEOX_DATA_START_BLOCK (its1 ++ ScanQuiescentProofs.IRec r :: its2) ->
+  exists o img',
+    Recovery.open_image c img = (Recovery.Ok o, img') /\
+    length img' = length img /\
+    skipn (N.to_nat Constants.FEOX_DATA_START_BLOCK) img' = ScanQuiescentProofs.ilayout v Constants.FEOX_DATA_START_BLOCK (its1 ++ ScanQuiescentProofs.IMark n :: its2) /\
+    (forall r', In r' (ScanQuiescentProofs.recs_of (its1 ++ its2)) -> exists s', Recovery.idx_find (Codec.r_key r') (Recovery.o_idx o) = Some (ScanQuiescentProofs.entry_of v r' s')) /\
+    Recovery.o_count o = N.of_nat (length (ScanQuiescentProofs.recs_of (its1 ++ its2))) /\
+    (forall b, Constants.FEOX_DATA_START_BLOCK <= b < total ->
+               (FreeSpaceProofs.free (Recovery.o_fs o) b <-> ~ ScanQuiescentProofs.covered v Constants.FEOX_DATA_START_BLOCK (its1 ++ ScanQuiescentProofs.IMark n :: its2) b)).
+Print Assumptions crashed_batch_is_rolled_back.
+(* non-vacuity: a 20-block file -- free block, a two-block record named by an ACTIVE journal record
+   in slot 0, a one-block record -- meets the premises; the open reports the second record only *)
+Example a_crashed_batch :
+  let r1 := Codec.mkrec [107; 49] (repeat 7 5000) 11 0 in
+  let r2 := Codec.mkrec [107; 50] [1; 2; 3] 12 99 in
+  let m := MetaJournal.mkmeta 3 2 5033 (20 * 4096) 4096 0 1 2 4 (repeat 0 48) in
+  let z := repeat 0 Codec.BLOCK in
+  let j := MetaJournal.encode_journal 5 Constants.JOURNAL_ACTIVE [(17, 2)] in
+  let jb := Recovery.chunk_blocks (j ++ Bytes.zeros (3 * Codec.BLOCK - length j)) 3 in
+  let img := [MetaJournal.meta_block m] ++ jb ++ [z; z; z; MetaJournal.meta_block m; z; z; z; z; z; z; z; z]
+             ++ ScanQuiescentProofs.ilayout 3 16 ([ScanQuiescentProofs.IFree] ++ ScanQuiescentProofs.IRec r1 :: [ScanQuiescentProofs.IRec r2]) in
+  length img = 20%nat /\
+  MetaJournal.decode_journal (Recovery.slot_bytes img 0) (Recovery.slot_bytes img 1) 20
+    = Some (5, 0, [(16 + ScanQuiescentProofs.isum 3 [ScanQuiescentProofs.IFree], ScanAcceptsProofs.need_of 3 r1)]) /\
+  match Recovery.open_image (Recovery.mkcfg false false None 168) img with
+  | (Recovery.Ok o, img') => map (fun e => (Recovery.e_key e, Recovery.e_sector e)) (Recovery.o_idx o) = [([107; 50], 19)] /\
+                    FreeSpace.runs (Recovery.o_fs o) = [(16, 3)] /\
+                    skipn 16 img' = ScanQuiescentProofs.ilayout 3 16 ([ScanQuiescentProofs.IFree] ++ ScanQuiescentProofs.IMark 2 :: [ScanQuiescentProofs.IRec r2])
+  | _ => False
+  end.
+Proof. vm_compute. repeat split; reflexivity. Qed.
